@@ -29,6 +29,8 @@ import (
 
 var R = stats.New("C13")
 
+func init() { gen.NoManyPairs = true }
+
 func TestMain(m *testing.M) { R.Main(m) }
 
 // Step of the reader script: first Data bytes are supplied, then Faults
